@@ -74,6 +74,7 @@ pub fn cfg_for(prop: u8, case: &Case) -> RunCfg {
         tables: true,
         universe: case.universe.max(1),
         raw: false,
+        strict_trace: false,
     }
 }
 
@@ -206,10 +207,10 @@ pub fn rule_text(prop: u8) -> &'static str {
         6 => "state by history + sorted consumption programs; non-trivial = a sorted consumption on >=3 elements with ties (DPQ: with a direction switch before exhaustion); distinct = hash of the case",
         7 => "receiver state + bulk op (extend/append/from_vec/from_iter/convert) with generated duplication and legal size hints, each extend/from_iter repeated under 10 hint modes; non-trivial = duplicate id or clash with n+k>=8, the metamorphic relation ran, and both strategies were predicted among the modes for some extend; distinct = hash of the case",
         8 => "state + retain/retain_mut/iter_mut/pop_if with generated masks and rewrites; non-trivial = size>=3, the call changed something (dropped and kept, or rewrote a priority), followed by a checked extraction; distinct = hash of the case",
-        9 => "histories dominated by iter_mut / (&mut q).into_iter() call programs over {next,next_back,len+size_hint probe} with every yielded reference kept alive and written through, and by 40 std adaptor / iterator-method compositions (rev, take, skip, step_by, nth, nth_back, rfold, find, ...) applied to the real IterMut type and compared with the same composition over the plain sequence; plus the complete enumeration described under exhaustive_subspace; non-trivial = n>=2 and >=2 elements yielded in one program (or an adaptor run on n>=2); distinct = hash of the case",
+        9 => "histories dominated by iter_mut / (&mut q).into_iter() call programs over {next,next_back,len+size_hint probe} with every yielded reference kept alive and written through, and by 42 std adaptor / iterator-method compositions (rev, take, skip, step_by, nth, nth_back, rfold, find, ...) applied to the real IterMut type and compared with the same composition over the plain sequence; plus the complete enumeration described under exhaustive_subspace; non-trivial = n>=2 and >=2 elements yielded in one program (or an adaptor run on n>=2); distinct = hash of the case",
         11 => "state + push_increase/push_decrease with offered priority lower/equal/higher; non-trivial = item present, size>=3, and the equal class or a move occurred; distinct = hash of the case",
         12 => "history over items with payload; non-trivial = a priority update of a present item issued with a different payload, a payload write, and a slot-renaming removal; distinct = hash of the case",
-        13 => "call programs over {next,next_back,len+size_hint probe} on iter, &q, into_iter, drain and the sorted iterators, and 40 std adaptor / iterator-method compositions applied to the real iterator types and compared (sequence, len, size_hint) with the same composition over the plain sequence; plus the complete enumeration described under exhaustive_subspace; non-trivial = n>=2 and a probe after an advance, or an adaptor whose length differs from n; distinct = hash of the case",
+        13 => "call programs over {next,next_back,len+size_hint probe} on iter, &q, into_iter, drain and the sorted iterators, and 42 std adaptor / iterator-method compositions applied to the real iterator types and compared (sequence, len, size_hint) with the same composition over the plain sequence; plus the complete enumeration described under exhaustive_subspace; non-trivial = n>=2 and a probe after an advance, or an adaptor whose length differs from n; distinct = hash of the case",
         15 => "state + serde round trip through 3 carriers as same/other kind; non-trivial = a round trip on >=3 elements with ties, or a deserialized pair sequence that repeats an item; distinct = hash of the case",
         16 => "state + clear/drain (consumption program, drop or forget) + continuation; non-trivial = size>=2 before, partial consumption or leak or clear, then >=3 further ops including an extraction; distinct = hash of the case",
         17 => "history with capacity ops interleaved; non-trivial = >=2 capacity ops on a non-empty queue and a later checked extraction; distinct = hash of the case",
@@ -395,6 +396,14 @@ pub fn run_history_property(a: &WorkerArgs) -> WorkerReport {
     let mut failures_left = 3;
     let mut leg = 0u32;
     let mut remaining = a.cases;
+    if prop == 6 && a.worker % 100 == 0 {
+        if let Some(f) = crate::special::zst_sorted_battery() {
+            let path = format!("{}/{}-zst-sorted.json", a.replay_dir, pid);
+            let _ = std::fs::write(&path, "{\"zst_sorted_battery\":true}");
+            acc.rep.violations.push(ViolationRec { signature: f.signature(), detail: f.detail, replay: path, step: 0 });
+        }
+        acc.rep.extra.insert("zst_sorted_cases".into(), serde_json::json!(12));
+    }
     #[cfg(feature = "std")]
     if prop == 15 && a.worker % 100 == 0 {
         // exhaustive small space: zero-sized item/priority types, sequences of length <= 2, 4 carriers
@@ -455,7 +464,7 @@ pub fn run_history_property(a: &WorkerArgs) -> WorkerReport {
             if (i as u32) % a.nworkers.max(1) != (a.worker % 100) % a.nworkers.max(1) {
                 continue;
             }
-            if matches!(prop, 3 | 8) && c.seed < 1000 && (i as u64 + a.seed) % 3 != 0 {
+            if matches!(prop, 3 | 6 | 8) && c.seed < 1000 && (i as u64 + a.seed) % 3 != 0 {
                 continue;
             }
             journal.write(&serde_json::to_string(c).unwrap());
@@ -481,6 +490,7 @@ pub fn run_history_property(a: &WorkerArgs) -> WorkerReport {
                 let owned = match prop {
                     1 | 2 => matches!(f.group, Group::Order | Group::Panic),
                     3 => matches!(f.group, Group::Content | Group::Ret | Group::Panic),
+                    6 => f.group == Group::Sorted || f.op == "sorted",
                     8 => matches!(f.op, "iter_mut" | "pop_if" | "retain"),
                     _ => false,
                 };
@@ -532,6 +542,14 @@ pub fn run_history_property(a: &WorkerArgs) -> WorkerReport {
                 let nt = nontrivial(prop, &r.stats);
                 match r.verdict {
                     Verdict::Pass => {
+                        if prop == 17 {
+                            if let Some(f) = capacity_twin_check(&case) {
+                                acc.counting = false;
+                                let msg = format!("{}: {}", f.signature(), f.detail);
+                                **last_fail = Some(f);
+                                return Err(TestCaseError::fail(msg));
+                            }
+                        }
                         acc.record(&case, case.hash64(), r.stats.max_size, nt, &r.stats);
                         Ok(())
                     }
@@ -572,7 +590,12 @@ pub fn run_history_property(a: &WorkerArgs) -> WorkerReport {
                 // re-run the minimal case to get its failure record
                 let cfg = cfg_for(prop, &case);
                 let r = run_one(&case, &cfg, false);
+                let twin_fail = if prop == 17 && matches!(r.verdict, Verdict::Pass) { capacity_twin_check(&case) } else { None };
                 let (sig, detail, step) = match r.verdict {
+                    _ if twin_fail.is_some() => {
+                        let f = twin_fail.unwrap();
+                        (f.signature(), f.detail.clone(), f.step)
+                    }
                     Verdict::Fail(f) => (f.signature(), f.detail.clone(), f.step),
                     _ => (last_fail.map(|f| f.signature()).unwrap_or_default(), reason.to_string(), -1),
                 };
@@ -594,8 +617,67 @@ pub fn run_history_property(a: &WorkerArgs) -> WorkerReport {
     acc.finish(&a.work_dir, t0.elapsed().as_secs_f64())
 }
 
+/// C17: the same history with every capacity operation left out must return exactly the same
+/// values, item for item (capacity management is invisible: not even the choice among equal
+/// priorities may depend on it).
+pub fn capacity_twin_check(case: &Case) -> Option<Failure> {
+    let strip = |c: &Case| -> Case {
+        let mut t = c.clone();
+        t.ops = c
+            .ops
+            .iter()
+            .filter(|o| !matches!(o, Op::Reserve { .. } | Op::Shrink))
+            .cloned()
+            .map(|o| match o {
+                Op::Append { pairs, swap_roles, mirror, .. } => Op::Append { pairs, swap_roles, mirror, cap: 0 },
+                o => o,
+            })
+            .collect();
+        t.ctor.how = match c.ctor.how {
+            CtorKind::WithCapacity(_) => CtorKind::New,
+            CtorKind::WithCapacityAndHasher(_) => CtorKind::WithHasher,
+            CtorKind::WithCapacityAndDefaultHasher(_) => CtorKind::WithDefaultHasher,
+            h => h,
+        };
+        t
+    };
+    let twin = strip(case);
+    if twin == *case {
+        return None;
+    }
+    let mut cfg = cfg_for(17, case);
+    cfg.strict_trace = true;
+    let a = run_one(case, &cfg, true);
+    let b = run_one(&twin, &cfg, true);
+    match (&a.verdict, &b.verdict, &a.trace, &b.trace) {
+        (Verdict::Pass, Verdict::Pass, Some(ta), Some(tb)) => {
+            if ta != tb {
+                let at = ta.iter().zip(tb.iter()).position(|(x, y)| x != y).unwrap_or(ta.len().min(tb.len()));
+                return Some(Failure {
+                    group: Group::Cap,
+                    clause: "capacity_ops_change_results",
+                    step: at as i32,
+                    op: "reserve",
+                    detail: format!(
+                        "the history returns {:?} as its {}th value, the same history without its capacity operations returns {:?} (capacity management must be invisible, also among equal priorities)",
+                        ta.get(at),
+                        at,
+                        tb.get(at)
+                    ),
+                    kind: if case.kind == Kind::PQ { "PQ" } else { "DPQ" },
+                });
+            }
+            None
+        }
+        _ => None,
+    }
+}
+
 /// Replay one case file under a property; returns the failure if it still fails.
 pub fn replay_history(prop: u8, text: &str, strict_known: &[KnownFinding]) -> Result<Option<Failure>, String> {
+    if prop == 6 && text.contains("zst_sorted_battery") {
+        return Ok(crate::special::zst_sorted_battery());
+    }
     if text.contains("\"huge\":true") {
         let c: crate::huge::HugeCase = serde_json::from_str(text).map_err(|e| format!("cannot parse case: {}", e))?;
         return Ok(crate::huge::huge_verdict(&c).err());
@@ -616,6 +698,7 @@ pub fn replay_history(prop: u8, text: &str, strict_known: &[KnownFinding]) -> Re
             }
         }
         Verdict::HarnessBug(m) => Err(m),
+        Verdict::Pass if prop == 17 => Ok(capacity_twin_check(&case)),
         _ => Ok(None),
     }
 }
